@@ -21,7 +21,9 @@ ASSUMPTIONS = ["one supplementary deterministic history over 300 elements is rep
                "reaches list positions beyond 256)",
                "elements are hashable tuples, as in rewire(); draw() on an empty set and the exception type "
                "of remove(absent) are unspecified by the property and not checked",
-               "canonical state = iteration order + repr of every instance attribute (over-fine on purpose)"]
+               "canonical state = iteration order + repr of every instance attribute (over-fine on purpose)",
+               "every add / remove / membership call receives an equal but not identical tuple object (as rewire() "
+               "does with tuple(sorted(e))), so comparisons by identity inside the structure are visible"]
 
 
 def instances(tier, seed):
@@ -46,12 +48,17 @@ def canon(s):
     return (tuple(iter(s)), tuple(sorted((k, repr(v)) for k, v in vars(s).items())))
 
 
+def fresh(x):
+    """An equal but not identical element: callers such as rewire() pass tuple(sorted(e)), a new object every time."""
+    return tuple(list(x))
+
+
 def build(history):
     from gcmpy.tools.draw_set import DrawSet
     s = DrawSet()
     model = set()
     for op, x in history:
-        x = tuple(x)
+        x = fresh(x)
         if op == "add":
             s.add(x)
             model.add(x)
@@ -75,7 +82,7 @@ def check_state(s, model, universe, res, hist):
     if sorted(items, key=repr) != sorted(model, key=repr) or len(items) != len(set(items)):
         return f"iteration {items} != members {sorted(model, key=repr)}"
     for x in universe:
-        if (x in s) != (x in model):
+        if (fresh(x) in s) != (x in model):
             return f"membership of {x}: {x in s} vs model {x in model}"
     if model:
         seen = {}
@@ -161,7 +168,7 @@ def run_instance(inst, tier):
                 h2 = hist + [(op, x)]
                 if op == "add":
                     try:
-                        t.add(x)
+                        t.add(fresh(x))
                     except Exception as e:
                         res.violation("C20:add-raises", f"add({x}) raised {e!r} after {hist}", inst, history=h2)
                         continue
@@ -177,7 +184,7 @@ def run_instance(inst, tier):
                         if len(model) == 1:
                             res.flags.add("remove-to-empty")
                         try:
-                            t.remove(x)
+                            t.remove(fresh(x))
                         except Exception as e:
                             res.violation("C20:remove-present-raises",
                                           f"remove({x}) raised {e!r} after {hist}", inst, history=h2)
@@ -186,7 +193,7 @@ def run_instance(inst, tier):
                     else:
                         res.flags.add("remove-absent")
                         try:
-                            t.remove(x)
+                            t.remove(fresh(x))
                             raised = False
                         except Exception:
                             raised = True
@@ -223,7 +230,7 @@ def run_instance(inst, tier):
                     tm = set(model)
                     for op, x in (o1, o2):
                         try:
-                            (t.add if op == "add" else t.remove)(x)
+                            (t.add if op == "add" else t.remove)(fresh(x))
                             (tm.add if op == "add" else tm.discard)(x)
                         except Exception:
                             pass
@@ -231,7 +238,7 @@ def run_instance(inst, tier):
                     res.transitions += 2
                     items = list(iter(t))
                     if len(t) != len(tm) or sorted(items, key=repr) != sorted(tm, key=repr) or \
-                            any((x in t) != (x in tm) for x in universe):
+                            any((fresh(x) in t) != (x in tm) for x in universe):
                         res.violation("C20:unobserved-steps", f"after history {hist} (observed), then {o1}, {o2} without "
                                       f"looking in between: iteration {items}, len {len(t)}, model "
                                       f"{sorted(tm, key=repr)}", inst, history=hist + [o1, o2])
